@@ -41,6 +41,10 @@ def run(ck: Checker):
     from .c08 import check_private_pool
 
     check_private_pool(ck, 'C01-9')
+    from .c08 import check_pool_size
+
+    ck.rule('C01-10', 'an empty input gives an empty stream, a short one its elements: the pool a parmapper creates has `concurrency` workers whatever the input — a size computed from the input (min(concurrency, len(instream))) is 0 for an empty sized input, and the pool constructor raises ValueError instead (LINEAR)', minimum=2)
+    check_pool_size(ck, 'C01-10')
     ck.rule('C01-8', "the feeder's own parameters do not share a keyword namespace with the worker function's keyword arguments (positional-only) — 'for any worker function' includes one with a keyword named q or to_stop", minimum=2)
     check_feeder_namespace(ck, 'C01-8')
 
